@@ -36,6 +36,7 @@ BlockOK(fam, b, r) ==
 
 Accept(e) ==
     CASE e.ev = "Dec3" -> AsyncOK(e.fam, e.bytes, e.async) /\ AsyncOK(e.fam, e.bytes, e.async_1) /\ BlockOK(e.fam, e.bytes, e.block)
+      [] e.ev = "BigDec" -> TRUE                       \* (kinds only: judged under C03 / C06)
       [] e.ev = "End"  -> l = Len(Rec)
       [] OTHER -> FALSE
 
